@@ -539,6 +539,14 @@ var c03XShapes = []xshape{
 	// an AT alias on the object joined with the anchor binding of another clause, both orders
 	{cs: []xclause{{qclause: qclause{s: bS, p: bP, o: bO}, oAt: "t", lo: -1, hi: -1}, {qclause: qclause{s: bZ, p: pos{cb: 'b'}, o: pos{bind: "w"}, at: "t"}, lo: -1, hi: -1}}, okinds: []int{0, 4}, temporal: true},
 	{cs: []xclause{{qclause: qclause{s: bZ, p: pos{cb: 'b'}, o: pos{bind: "w"}, at: "t"}, lo: -1, hi: -1}, {qclause: qclause{s: bS, p: cA, o: bO}, oAt: "t", lo: -1, hi: -1}}, okinds: []int{0, 4}, temporal: true},
+	// an extraction keyword of one clause has no effect on the plain binding in the
+	// same position of the next clause (the hooks keep the last keyword per position)
+	{cs: []xclause{{qclause: qclause{s: bS, p: cA, o: bO}, sType: "y", lo: -1, hi: -1}, xq(qclause{s: bZ, p: pos{cb: 'b'}, o: bO})}, okinds: []int{0}},
+	{cs: []xclause{{qclause: qclause{s: bS, p: cA, o: bO}, sID: "y", lo: -1, hi: -1}, xq(qclause{s: bO, p: pos{cb: 'b'}, o: bZ})}, okinds: []int{0}},
+	{cs: []xclause{{qclause: qclause{s: bS, p: bP, o: bO}, pID: "i", lo: -1, hi: -1}, xq(qclause{s: bO, p: pos{bind: "q"}, o: bZ})}, okinds: []int{0}, temporal: true},
+	{cs: []xclause{{qclause: qclause{s: bS, p: bP, o: bO}, pAt: "t", lo: -1, hi: -1}, xq(qclause{s: bO, p: pos{bind: "q"}, o: bZ})}, okinds: []int{0}, temporal: true},
+	{cs: []xclause{{qclause: qclause{s: bS, p: cA, o: bO}, oType: "y", lo: -1, hi: -1}, xq(qclause{s: bS, p: pos{cb: 'b'}, o: bZ})}, okinds: []int{0}},
+	{cs: []xclause{{qclause: qclause{s: bS, p: cA, o: bO}, oID: "y", lo: -1, hi: -1}, xq(qclause{s: bO, p: pos{cb: 'b'}, o: bZ})}, okinds: []int{0}},
 	// FILTER clauses (isTemporal / isImmutable on a predicate binding and on a
 	// predicate-valued object binding; latest on the predicate binding of an open clause)
 	{cs: []xclause{xq(qclause{s: bS, p: bP, o: bO})}, okinds: []int{0}, temporal: true, filter: "filter isTemporal(?p)",
